@@ -237,9 +237,13 @@ Proof.
   pose proof msg_keys_in as [Hke Hkw].
   unfold notify, notify_state, counted, detailed, overdict, shown, msg_key in *.
   destruct c; cbn [is_file_cat is_msg item_of cat_name];
-    destruct flt as [g|]; cbn [is_ignore verdict_eqb];
-    try (destruct (is_ignore (g f DNone)) eqn:Ei);
-    try (destruct (is_ignore (g f d)) eqn:Ei);
+    (destruct flt as [g|];
+     [ match goal with
+       | |- context [g f DNone] => remember (g f DNone) as v eqn:Ev; clear Ev
+       | |- context [g f d] => remember (g f d) as v eqn:Ev; clear Ev
+       end;
+       destruct (is_ignore v) eqn:Ei
+     | change (is_ignore VError) with false ]);
     cbn [negb andb orb];
     repeat match goal with
            | |- context [?a <=? ?b] => destruct (a <=? b) eqn:?
@@ -252,10 +256,275 @@ Proof.
                rewrite (proj1 (add_detail_ok s f it ltac:(assumption) Hp))
            end;
     try reflexivity.
-  all: repeat match goal with
-           | |- context [sum_add ?l ?k ?n (o_summary ?s)] =>
-               rewrite (sum_add_fst s l k n) by
-                 (try assumption; try (apply ost_ok_ins; assumption))
-           end; try reflexivity.
+  all: match goal with
+       | |- context [sum_add ?l ?k ?n (o_summary ?s)] =>
+           rewrite (sum_add_fst s l k n) at 1 by
+             (try assumption; try (apply ost_ok_ins; assumption))
+       end.
+  all: reflexivity.
 Qed.
 
+(* projections of one notify *)
+Definition is_cerror (c : category) : bool := match c with CError => true | _ => false end.
+
+Lemma notify_state_summary : forall q flt st c f d,
+  o_summary (notify_state q flt st c f d) =
+  if counted flt c f d then fst (sum_add (f_locale f) (msg_key c) 1 (o_summary st)) else o_summary st.
+Proof.
+  intros. unfold notify_state. fold (is_cerror c).
+  destruct (counted flt c f d), (is_cerror c), (detailed q flt c f d); reflexivity.
+Qed.
+
+Lemma notify_state_error : forall q flt st c f d,
+  o_error (notify_state q flt st c f d) = o_error st || (counted flt c f d && is_cerror c).
+Proof.
+  intros. unfold notify_state. fold (is_cerror c).
+  destruct (counted flt c f d), (is_cerror c), (detailed q flt c f d); simpl;
+    rewrite ?orb_true_r, ?orb_false_r; reflexivity.
+Qed.
+
+Lemma notify_state_details : forall q flt st c f d,
+  o_details (notify_state q flt st c f d) =
+  if detailed q flt c f d then ins (o_details st) f (item_of c (overdict flt c f d) d) else o_details st.
+Proof.
+  intros. unfold notify_state. fold (is_cerror c).
+  destruct (counted flt c f d), (is_cerror c), (detailed q flt c f d); reflexivity.
+Qed.
+
+(* ---- updateStats ------------------------------------------------------------- *)
+Definition stats_ok (stats : list (str * nat)) : Prop :=
+  Forall (fun kv => In (fst kv) summary_keys) stats.
+
+Fixpoint stats_state (st : ostate) (loc : N) (stats : list (str * nat)) : ostate :=
+  match stats with
+  | [] => st
+  | (cat, v) :: r =>
+      let st1 := if str_eqb cat stats_errors_key then set_error st else st in
+      stats_state (with_summary st1 (fst (sum_add loc cat v (o_summary st1)))) loc r
+  end.
+
+Definition stats_ignored (flt : option filter_t) (f : file) : bool :=
+  match flt with Some g => is_ignore (g f empty_entity) | None => false end.
+
+Definition update_state (flt : option filter_t) (st : ostate) (f : file)
+           (stats : list (str * nat)) : ostate :=
+  if stats_ignored flt f then st else stats_state st (f_locale f) stats.
+
+Lemma stats_loop_eq : forall stats st loc, ost_ok st -> stats_ok stats ->
+  stats_loop st loc stats = (stats_state st loc stats, Ok tt) /\ ost_ok (stats_state st loc stats).
+Proof.
+  induction stats as [|[cat v] r IH]; intros st loc Hok Hs; [split; [reflexivity | exact Hok]|].
+  pose proof (Forall_inv Hs) as Hc. pose proof (Forall_inv_tail Hs) as Hs'. simpl in Hc.
+  cbn [stats_loop stats_state].
+  set (st1 := if str_eqb cat stats_errors_key then set_error st else st).
+  assert (H1 : ost_ok st1) by (unfold st1; destruct (str_eqb cat stats_errors_key); [apply ost_ok_set_error|]; exact Hok).
+  rewrite (sum_add_fst st1 loc cat v H1 Hc).
+  apply IH; [apply ost_ok_sum; assumption | exact Hs'].
+Qed.
+
+Lemma update_eq : forall flt st f stats, ost_ok st -> stats_ok stats ->
+  update_stats flt st f stats = (update_state flt st f stats, Ok tt) /\
+  ost_ok (update_state flt st f stats).
+Proof.
+  intros flt st f stats Hok Hs. unfold update_stats, update_state, stats_ignored.
+  destruct flt as [g|]; [destruct (is_ignore (g f empty_entity)); [split; [reflexivity | exact Hok]|]|];
+    apply stats_loop_eq; assumption.
+Qed.
+
+Lemma stats_state_details : forall stats st loc, o_details (stats_state st loc stats) = o_details st.
+Proof.
+  induction stats as [|[cat v] r IH]; intros; [reflexivity|]. cbn [stats_state]. rewrite IH.
+  destruct (str_eqb cat stats_errors_key); reflexivity.
+Qed.
+
+(* ---- histories: the pure step --------------------------------------------- *)
+Definition ev_ok (e : event) : Prop :=
+  match e with
+  | ENotify _ f _ => file_parts f <> []
+  | EStats _ stats => stats_ok stats
+  end.
+
+Definition ostate_step (q : nat) (flt : option filter_t) (st : ostate) (e : event) : ostate :=
+  match e with
+  | ENotify c f d => notify_state q flt st c f d
+  | EStats f stats => update_state flt st f stats
+  end.
+
+Definition ev_outcome (flt : option filter_t) (e : event) : outcome :=
+  match e with
+  | ENotify c f d => OVerdict (overdict flt c f d)
+  | EStats _ _ => ONone
+  end.
+
+Lemma ostep_eq : forall q flt st e, ost_ok st -> ev_ok e ->
+  ostep q flt st e = (ostate_step q flt st e, ev_outcome flt e) /\ ost_ok (ostate_step q flt st e).
+Proof.
+  intros q flt st [c f d | f stats] Hok He; simpl in *.
+  - rewrite (notify_eq q flt st c f d Hok He). split; [reflexivity | apply notify_state_ok; assumption].
+  - destruct (update_eq flt st f stats Hok He) as [E H]. rewrite E. split; [reflexivity | exact H].
+Qed.
+
+Fixpoint orun_pure (q : nat) (flt : option filter_t) (st : ostate) (h : list event) : ostate :=
+  match h with
+  | [] => st
+  | e :: h' => orun_pure q flt (ostate_step q flt st e) h'
+  end.
+
+Lemma orun_eq : forall q flt h st, ost_ok st -> Forall ev_ok h ->
+  orun q flt st h = orun_pure q flt st h /\ ost_ok (orun_pure q flt st h).
+Proof.
+  induction h as [|e h IH]; intros st Hok Hh; [split; [reflexivity | exact Hok]|].
+  pose proof (Forall_inv Hh) as He. pose proof (Forall_inv_tail Hh) as Hh'.
+  destruct (ostep_eq q flt st e Hok He) as [E H]. simpl. rewrite E. simpl. apply IH; assumption.
+Qed.
+
+(* ---- summary and error flag: a run that does not know the quiet level ------- *)
+Definition se := (summary_t * bool)%type.
+Definition proj (st : ostate) : se := (o_summary st, o_error st).
+
+Fixpoint se_stats (x : se) (loc : N) (stats : list (str * nat)) : se :=
+  match stats with
+  | [] => x
+  | (cat, v) :: r =>
+      se_stats (fst (sum_add loc cat v (fst x)), snd x || str_eqb cat stats_errors_key) loc r
+  end.
+
+Definition se_step (flt : option filter_t) (x : se) (e : event) : se :=
+  match e with
+  | ENotify c f d =>
+      (if counted flt c f d then fst (sum_add (f_locale f) (msg_key c) 1 (fst x)) else fst x,
+       snd x || (counted flt c f d && is_cerror c))
+  | EStats f stats => if stats_ignored flt f then x else se_stats x (f_locale f) stats
+  end.
+
+Definition se_run (flt : option filter_t) (x : se) (h : list event) : se := fold_left (se_step flt) h x.
+
+Lemma proj_stats : forall stats st loc, proj (stats_state st loc stats) = se_stats (proj st) loc stats.
+Proof.
+  induction stats as [|[cat v] r IH]; intros; [reflexivity|]. cbn [stats_state se_stats]. rewrite IH.
+  f_equal. unfold proj. destruct (str_eqb cat stats_errors_key); simpl; rewrite ?orb_true_r, ?orb_false_r; reflexivity.
+Qed.
+
+Lemma proj_step : forall q flt st e, proj (ostate_step q flt st e) = se_step flt (proj st) e.
+Proof.
+  intros q flt st [c f d | f stats]; simpl.
+  - unfold proj. rewrite notify_state_summary, notify_state_error. reflexivity.
+  - unfold update_state. destruct (stats_ignored flt f); [reflexivity | apply proj_stats].
+Qed.
+
+Lemma proj_run : forall q flt h st, proj (orun_pure q flt st h) = se_run flt (proj st) h.
+Proof.
+  induction h as [|e h IH]; intro st; [reflexivity|]. simpl. rewrite IH, proj_step. reflexivity.
+Qed.
+
+(* ---- the expected counts ------------------------------------------------------ *)
+Fixpoint stats_sum (k : str) (stats : list (str * nat)) : nat :=
+  match stats with
+  | [] => 0
+  | (cat, v) :: r => (if str_eqb k cat then v else 0) + stats_sum k r
+  end.
+
+(* what one event contributes to summary[loc][k] *)
+Definition ev_count (flt : option filter_t) (e : event) (loc : N) (k : str) : nat :=
+  match e with
+  | ENotify c f d =>
+      if counted flt c f d && N.eqb loc (f_locale f) && str_eqb k (msg_key c) then 1 else 0
+  | EStats f stats =>
+      if stats_ignored flt f then 0 else if N.eqb loc (f_locale f) then stats_sum k stats else 0
+  end.
+
+Fixpoint hist_count (flt : option filter_t) (h : list event) (loc : N) (k : str) : nat :=
+  match h with
+  | [] => 0
+  | e :: h' => ev_count flt e loc k + hist_count flt h' loc k
+  end.
+
+(* ... and to the total over all locales *)
+Definition ev_total (flt : option filter_t) (e : event) (k : str) : nat :=
+  match e with
+  | ENotify c f d => if counted flt c f d && str_eqb k (msg_key c) then 1 else 0
+  | EStats f stats => if stats_ignored flt f then 0 else stats_sum k stats
+  end.
+
+Fixpoint hist_total (flt : option filter_t) (h : list event) (k : str) : nat :=
+  match h with
+  | [] => 0
+  | e :: h' => ev_total flt e k + hist_total flt h' k
+  end.
+
+Definition se_ok (x : se) : Prop := swf (fst x).
+
+Lemma se_stats_count : forall stats x loc, se_ok x -> stats_ok stats ->
+  se_ok (se_stats x loc stats) /\
+  (forall loc' k, count_of (fst (se_stats x loc stats)) loc' k =
+                  count_of (fst x) loc' k + (if N.eqb loc' loc then stats_sum k stats else 0)) /\
+  (forall k, total (fst (se_stats x loc stats)) k = total (fst x) k + stats_sum k stats).
+Proof.
+  induction stats as [|[cat v] r IH]; intros x loc Hx Hs.
+  - split; [exact Hx|]. split; intros; simpl; [destruct (N.eqb loc' loc)|]; lia.
+  - pose proof (Forall_inv Hs) as Hc. pose proof (Forall_inv_tail Hs) as Hs'. simpl in Hc.
+    destruct (sum_add_ok loc cat v (fst x) Hx Hc) as (s' & E & Hwf & Hcnt & Htot).
+    cbn [se_stats]. rewrite E. cbn [fst].
+    destruct (IH (s', snd x || str_eqb cat stats_errors_key) loc Hwf Hs') as (A & B & C).
+    split; [exact A|]. split.
+    + intros loc' k. rewrite B. cbn [fst]. rewrite Hcnt. cbn [stats_sum].
+      destruct (N.eqb loc' loc); simpl; lia.
+    + intro k. rewrite C. cbn [fst]. rewrite Htot. cbn [stats_sum]. lia.
+Qed.
+
+Lemma se_step_count : forall flt x e, se_ok x -> ev_ok e ->
+  se_ok (se_step flt x e) /\
+  (forall loc k, count_of (fst (se_step flt x e)) loc k = count_of (fst x) loc k + ev_count flt e loc k) /\
+  (forall k, total (fst (se_step flt x e)) k = total (fst x) k + ev_total flt e k).
+Proof.
+  intros flt x [c f d | f stats] Hx He; simpl in *.
+  - destruct (counted flt c f d) eqn:Ec; simpl.
+    + assert (Hk : In (msg_key c) summary_keys).
+      { unfold counted in Ec. apply andb_true_iff in Ec as [_ Ec]. destruct c; try discriminate; apply msg_keys_in. }
+      destruct (sum_add_ok (f_locale f) (msg_key c) 1 (fst x) Hx Hk) as (s' & E & Hwf & Hcnt & Htot).
+      rewrite E. simpl. split; [exact Hwf|]. split.
+      * intros loc k. rewrite Hcnt. destruct (N.eqb loc (f_locale f)), (str_eqb k (msg_key c)); reflexivity.
+      * intro k. rewrite Htot. reflexivity.
+    + split; [exact Hx|]. split; intros; lia.
+  - destruct (stats_ignored flt f).
+    + split; [exact Hx|]. split; intros; lia.
+    + destruct (se_stats_count stats x (f_locale f) Hx He) as (A & B & C). auto.
+Qed.
+
+Lemma se_run_count : forall flt h x, se_ok x -> Forall ev_ok h ->
+  se_ok (se_run flt x h) /\
+  (forall loc k, count_of (fst (se_run flt x h)) loc k = count_of (fst x) loc k + hist_count flt h loc k) /\
+  (forall k, total (fst (se_run flt x h)) k = total (fst x) k + hist_total flt h k).
+Proof.
+  induction h as [|e h IH]; intros x Hx Hh.
+  - split; [exact Hx|]. split; intros; simpl; lia.
+  - pose proof (Forall_inv Hh) as He. pose proof (Forall_inv_tail Hh) as Hh'.
+    destruct (se_step_count flt x e Hx He) as (A & B & C).
+    destruct (IH (se_step flt x e) A Hh') as (A' & B' & C').
+    unfold se_run in *. simpl. split; [exact A'|]. split.
+    + intros loc k. rewrite B', B. lia.
+    + intro k. rewrite C', C. lia.
+Qed.
+
+(* the error flag: set by a counted error or by a stats dict with the errors key *)
+Definition ev_sets_error (flt : option filter_t) (e : event) : bool :=
+  match e with
+  | ENotify c f d => counted flt c f d && is_cerror c
+  | EStats f stats => negb (stats_ignored flt f) && existsb (fun kv => str_eqb (fst kv) stats_errors_key) stats
+  end.
+
+Lemma se_stats_error : forall stats x loc,
+  snd (se_stats x loc stats) = snd x || existsb (fun kv => str_eqb (fst kv) stats_errors_key) stats.
+Proof.
+  induction stats as [|[cat v] r IH]; intros; simpl; [rewrite orb_false_r; reflexivity|].
+  rewrite IH. simpl. rewrite orb_assoc. reflexivity.
+Qed.
+
+Lemma se_run_error : forall flt h x,
+  snd (se_run flt x h) = snd x || existsb (ev_sets_error flt) h.
+Proof.
+  induction h as [|e h IH]; intro x; simpl; [rewrite orb_false_r; reflexivity|].
+  unfold se_run in *. simpl. rewrite IH. rewrite orb_assoc. f_equal.
+  destruct e as [c f d | f stats]; simpl; [reflexivity|].
+  destruct (stats_ignored flt f); simpl; [rewrite orb_false_r; reflexivity | apply se_stats_error].
+Qed.
